@@ -93,6 +93,47 @@ def run(E: Engine, rep: Report, tier: str) -> dict:
                             if isinstance(s, ast.Assign) and isinstance(s.value, ast.Call) and isinstance(s.value.func, ast.Attribute) and s.value.func.attr == "adjust_duration" and norm(s.targets[0]) == norm(n.test.left if isinstance(n.test, ast.Compare) else s.targets[0]):
                                 ok = True
     rep.check(ok, "FLOW", "_Schedule.make_next_pulse_slot|delay>0-adjusted", "a positive automatic delay is adjusted to the channel's minimum duration / clock", "the automatic delay before a pulse no longer passes adjust_duration when positive", E.where(f))
+    # ADJ: the duration that enters a slot boundary is, on every path, the result of adjust/validate
+    # (or zero: a definition followed by a dominating `if d != 0 / > 0: d = adjust_duration(d)`)
+    for mname, var, use_pat in (("add_target", "delta", "tf"), ("make_next_pulse_slot", "delay_duration", "ti")):
+        f = E.method(SCHED, mname)
+        fl = E.flow(f)
+        dom = fl.dominators()
+        use_node = None
+        for n in ast.walk(f.node):
+            if isinstance(n, ast.Assign) and isinstance(n.targets[0], ast.Name) and n.targets[0].id == use_pat and isinstance(n.value, ast.BinOp) and isinstance(n.value.op, ast.Add) and var in (norm(n.value.left), norm(n.value.right)):
+                use_node = fl.node_of(n)
+        if use_node is None:
+            raise AnalysisError(f"anchor: `{use_pat} = ... + {var}` not found in _Schedule.{mname}")
+        adj_ifs = []
+        for node in fl.nodes:
+            st = node.stmt
+            if node.kind == "test" and isinstance(st, ast.If) and isinstance(st.test, ast.Compare) and norm(st.test.left) == var and isinstance(st.test.ops[0], (ast.NotEq, ast.Gt)) and norm(st.test.comparators[0]) == "0":
+                if any(isinstance(b, ast.Assign) and norm(b.targets[0]) == var and isinstance(b.value, ast.Call) and isinstance(b.value.func, ast.Attribute) and b.value.func.attr in ("adjust_duration", "validate_duration") for b in st.body):
+                    adj_ifs.append(node)
+        bad = []
+        for d in fl.reaching_defs(use_node.id, var):
+            if not isinstance(d, ast.AST):
+                bad.append(str(d))
+                continue
+            if isinstance(d, ast.Assign) and isinstance(d.value, ast.Call) and isinstance(d.value.func, ast.Attribute) and d.value.func.attr in ("adjust_duration", "validate_duration"):
+                continue
+            dn = fl.node_of(d)
+            ok = False
+            for a in adj_ifs:
+                if a.id in dom.get(use_node.id, set()) and dn is not None and a.id in fl.reachable_from(dn.id):
+                    ok = True
+            if not ok:
+                bad.append(norm(d)[:80])
+        rep.check(not bad, "FLOW", f"_Schedule.{mname}|{var}-adjusted-on-every-path", f"every definition of `{var}` reaching `{use_pat} = ... + {var}` is an adjust_duration result or is adjusted (when non-zero) before use",
+                  f"`{var}` can reach the slot boundary `{use_pat}` without passing adjust_duration: unadjusted definition(s) {bad} -- a delay/retarget shorter than min_duration or off the clock grid could be scheduled", E.where(f, use_node.stmt))
+    # the EOM buffer pulse's duration is adjusted as well
+    en = E.method(SCHED, "enable_eom")
+    aben = abstractor(E.flow(en))
+    for n in ast.walk(en.node):
+        if isinstance(n, ast.Call) and (dotted(n.func) or "") == "Pulse.ConstantPulse" and n.args:
+            a = aben.av(n.args[0])
+            rep.check(any(r.endswith("adjust_duration()") for r in a.roots), "FLOW", "_Schedule.enable_eom|buffer-pulse-duration-adjusted", "EOM buffer pulse duration comes from adjust_duration", f"the EOM buffer pulse duration {norm(n.args[0])} does not pass adjust_duration", E.where(en, n))
     # add_pulse inserts exactly slot.ti - last.tf
     f = E.method(SCHED, "add_pulse")
     fl = E.flow(f)
